@@ -293,7 +293,8 @@ def cases(draw):
             later = draw(st.integers(1, nroots - 1))
             for rep in range(reps):
                 tab[0][rep] = -1
-                tab[later][rep] = 0          # U[0] is the OID before every root: smaller than the requested root
+                # an OID inside the FIRST root: larger than the first requested root, smaller than the later one
+                tab[later][rep] = 1 if rep % 2 == 0 or reps == 1 else 0
         elif style == "identity":
             q = draw(st.integers(len(roots), nq - 1))
             for rep in range(reps):
